@@ -95,6 +95,14 @@ def gen_case(rng):
           ops[-1]['_skip'] = True   # every name is known: skip_unknown must change nothing
         if rng.random() < 0.25:
           ops[-1]['_parse_enter'] = [{'k': 'name', 'v': rng.choice(['setup', 'a', 'c/b'])}]
+  if rng.random() < 0.3:
+    # a mutable value that is no list, tuple or dict (only an API call can bind one): consumers mutate their copy only
+    for c in consumers:
+      cls = [n for n, k in G.param_classes(c).items() if k == 'valid']
+      if cls:
+        ops.append({'op': 'bind', 'scope': '/'.join(rng.choice(scopes)), 'sel': c['_selector'], 'arg': rng.choice(cls),
+                    'val': rng.choice([{'set': [1, 2], 'm': 1}, {'l': [1, {'set': [3], 'm': 1}]}, {'set': [], 'm': 1}]),
+                    '_form': 'tuple', 'block': False})
   ops.append({'op': 'config'})
   if rng.random() < 0.35:
     ops.append({'op': 'finalize'})    # the same calls on a locked configuration
@@ -157,20 +165,80 @@ def run_alias_case(case):
   return {'out': [], 'facts': facts}
 
 
+# a referenced configurable that does not return: whatever it raises (an Exception, or a BaseException such as
+# SystemExit / KeyboardInterrupt / GeneratorExit that the caller catches), the reference's scope is left again and later
+# calls run their unscoped references under the scope that is active then - a finite table on the real code (the
+# probes of the mirror always return)
+RAISE_CASES = [{'dom': 'gin', 'kind': 'raises', 'exc': exc, 'refscope': rs, 'ambient': amb, 'evaluate': ev, 'ops': []}
+               for exc in ('ValueError', 'SystemExit', 'KeyboardInterrupt', 'GeneratorExit', 'BaseMarker')
+               for rs in ('job', 'job/step', '') for amb in ('', 'outer') for ev in (True, False)]
+
+
+def run_raises_case(case):
+  import contextlib
+  import core
+  gin = core.fresh_gin()
+
+  class BaseMarker(BaseException):
+    pass
+  exc_cls = {'ValueError': ValueError, 'SystemExit': SystemExit, 'KeyboardInterrupt': KeyboardInterrupt,
+             'GeneratorExit': GeneratorExit, 'BaseMarker': BaseMarker}[case['exc']]
+  state = {'fail': True}
+  g = {'__name__': 'rz', 'gin': gin, 'state': state, 'exc_cls': exc_cls}
+  exec('def step(n=0):\n  if state["fail"]:\n    raise exc_cls("stop")\n  return ("step", list(gin.current_scope()), n)\n'  # pylint: disable=exec-used
+       'def where(tag=None):\n  return ("where", list(gin.current_scope()), tag)\n'
+       'def consumer(dep=None, here=None):\n  return (dep, here)\n', g)
+  step, where, consumer = (gin.configurable(g[n]) for n in ('step', 'where', 'consumer'))
+  del step, where
+  rs = case['refscope']
+  ref = ('@' + (rs + '/' if rs else '') + 'rz.step') + ('()' if case['evaluate'] else '')
+  gin.parse_config(f'rz.consumer.dep = {ref}\nrz.consumer.here = @rz.where()\njob/rz.where.tag = "job"\n')
+  facts = {}
+  amb = case['ambient']
+
+  def call():
+    with contextlib.ExitStack() as st:
+      if amb:
+        st.enter_context(gin.config_scope(amb))
+      dep, here = consumer()
+      if not case['evaluate']:
+        dep = dep()
+      return [list(dep), list(here), list(gin.current_scope())]
+  try:
+    try:
+      call()
+      facts['first'] = 'returned'
+    except exc_cls:
+      facts['first'] = 'raised'
+    facts['scope_after_failure'] = list(gin.current_scope())
+    state['fail'] = False
+    facts['second'] = call()
+    facts['scope_after'] = list(gin.current_scope())
+  except BaseException as e:  # pylint: disable=broad-except
+    facts['error'] = f'{type(e).__name__}: {e}'[:300]
+  ambient = [amb] if amb else []
+  facts['want'] = {'first': 'raised', 'scope_after_failure': [], 'scope_after': [],
+                   'second': [['step', (rs.split('/') if rs else ambient), 0], ['where', ambient, None], ambient]}
+  return {'out': [], 'facts': facts}
+
+
 def run_impl(case):  # noqa: F811
+  if case.get('kind') == 'raises':
+    return run_raises_case(case)
   if case.get('kind') == 'alias':
     return run_alias_case(case)
   return gindom.run_impl(case)
 
 
 def compare(case, impl, model):  # noqa: F811
-  if case.get('kind') == 'alias':
+  if case.get('kind') in ('alias', 'raises'):
     return None
   return gindom.compare(case, impl, model)
 
 
 def gen_cases(rng, tier, boost=1):
   yield from ALIAS_CASES
+  yield from RAISE_CASES
   n = (700 if tier == 'quick' else 20000) * boost
   for _ in range(n):
     yield gen_case(rng)
@@ -192,6 +260,15 @@ def _count_refs(v, counts, evaluated_only=True):
 
 def oracle(case, impl):
   """Independent statement (flat configurations): call counts, scopes, and immutability of the store."""
+  if case.get('kind') == 'raises':
+    f = impl['facts']
+    if 'error' in f:
+      return f'a referenced configurable that raises {case["exc"]} ({case}): {f["error"]}'
+    for k, want in f['want'].items():
+      if f.get(k) != want:
+        return (f'reference {"@" + case["refscope"] + "/step" if case["refscope"] else "@step"} (evaluated: {case["evaluate"]}) whose '
+                f'configurable raised {case["exc"]} under ambient scope {case["ambient"]!r}: {k} is {f.get(k)}, expected {want}')
+    return None
   if case.get('kind') == 'alias':
     f = impl['facts']
     if 'error' in f:
@@ -246,7 +323,7 @@ def oracle(case, impl):
 
 
 def nontrivial(case, impl):
-  if case.get('kind') == 'alias':
+  if case.get('kind') in ('alias', 'raises'):
     return True
   nested = any(o['op'] == 'bind' and isinstance(o['val'], dict) and any(k in o['val'] for k in ('l', 't', 'd'))
                for o in case['ops'])
@@ -257,7 +334,7 @@ def nontrivial(case, impl):
 
 
 def tally(stats, case, impl):
-  if case.get('kind') == 'alias':
+  if case.get('kind') in ('alias', 'raises'):
     stats['alias_table'] = stats.get('alias_table', 0) + 1
     return
   for op, res in zip(case['ops'], impl['out']):
@@ -269,7 +346,7 @@ def tally(stats, case, impl):
 
 
 def shrink(case):
-  if case.get('kind') == 'alias':
+  if case.get('kind') in ('alias', 'raises'):
     return
   ops = case['ops']
   for k in range(len(ops) - 1, -1, -1):
